@@ -122,21 +122,33 @@ pub fn pop_table(prop: &str, kinds: &[Kind], cover_methods: &[Method], tier: &st
         // fail-chain shapes: many small families with sparse suffix structure, default settings only
         let mut fams = if lm_prop { families::leftmost_shape_families(level, util::seed()) } else { Vec::new() };
         fams.extend(families::fail_chain_grid(if level >= 1 { 5 } else { 4 }));
+        fams.extend(families::fail_chain_grid2(if level >= 1 { 5 } else { 4 }));
+        fams.extend(families::wide_state_grid());
         let a = util::par_for(fams.len(), |fi, acc| {
             let fam = &fams[fi];
             for &kind in kinds {
-                let cfg = Cfg::new(Variant::Byte, kind, None, Entry::Builder);
-                let origin = e2::case_json(&cfg, &fam.pats, None);
-                util::set_case(prop, "table", origin.clone());
-                if let Some(b) = e2::build_or_violate(prop, "table", cfg, &fam.pats, None, acc) {
-                    if e1::check_table(prop, &b, &fam.pats, &origin, acc).is_some() && kind != Kind::Std {
-                        crate::lm::check_leftmost(prop, &b, &fam.pats, &origin, acc);
+                // leftmost-first depends on the registration order: sets of up to four patterns are
+                // built in every order
+                let orders: Vec<Vec<usize>> = if kind == Kind::LF && fam.pats.len() <= 4 {
+                    crate::props3::permutations_pub(fam.pats.len())
+                } else {
+                    vec![(0..fam.pats.len()).collect()]
+                };
+                for o in &orders {
+                    let pats: Vec<Vec<u8>> = o.iter().map(|&i| fam.pats[i].clone()).collect();
+                    let cfg = Cfg::new(Variant::Byte, kind, None, Entry::Builder);
+                    let origin = e2::case_json(&cfg, &pats, None);
+                    util::set_case(prop, "table", origin.clone());
+                    if let Some(b) = e2::build_or_violate(prop, "table", cfg, &pats, None, acc) {
+                        if e1::check_table(prop, &b, &pats, &origin, acc).is_some() && kind != Kind::Std {
+                            crate::lm::check_leftmost(prop, &b, &pats, &origin, acc);
+                        }
                     }
                 }
             }
         });
         acc.merge(a);
-        bounds.push(format!("E1{} on {} fail-chain shape families: {}the complete fail-chain grid (5 patterns, 8 letter roles) over {} letters; default settings", if lm_prop { "+E7" } else { "" }, fams.len(), if lm_prop { "sparse mutant families (4-20 patterns of up to 7 bytes over 4-9 letters) and " } else { "" }, if level >= 1 { 5 } else { 4 }));
+        bounds.push(format!("E1{} on {} fail-chain shape families: {}the complete fail-chain grids (template 1: 5 patterns / 8 letter roles; template 2: 4 patterns / 6 roles, all 24 orders under leftmost-first) over {} letters and the wide-state grid; default settings", if lm_prop { "+E7" } else { "" }, fams.len(), if lm_prop { "sparse mutant families (4-20 patterns of up to 7 bytes over 4-9 letters) and " } else { "" }, if level >= 1 { 5 } else { 4 }));
     }
     bounds.push(format!(
         "E1{} population level {} x kinds {:?} x nfb {:?}",
